@@ -119,6 +119,8 @@ theorem pyFloorDiv_zero (a : Int) : pyFloorDiv a 0 = .error .zeroDivisionError :
 
 theorem land_mask24 (h : Nat) : h &&& 16777215 = h % 16777216 := Nat.and_two_pow_sub_one_eq_mod h 24
 theorem land_mask8 (h : Nat) : h &&& 255 = h % 256 := Nat.and_two_pow_sub_one_eq_mod h 8
+theorem land_mask24' (h : Nat) : 16777215 &&& h = h % 16777216 := by rw [Nat.and_comm]; exact land_mask24 h
+theorem land_mask8' (h : Nat) : 255 &&& h = h % 256 := by rw [Nat.and_comm]; exact land_mask8 h
 
 theorem pyInt_int (i : Int) : pyInt (.int i) = .ok i := rfl
 theorem pyInt_bool (b : Bool) : pyInt (.bool b) = .ok (if b then 1 else 0) := rfl
